@@ -13,8 +13,13 @@
    lineno, Text and raw of the cached objects at the time of the Get.
    RawLine.orignl is never assigned after construction, so raw lines are values.
 
+   I/O errors while saving are an explicit argument of the save operation: the
+   list `fail` of the files for which writing the temporary file or the rename
+   fails (pre-existing *.pkglint.tmp, unwritable directory, full disk): such a
+   file is evicted like every other changed file, but the disk keeps its content.
+
    Not modelled (assumptions, see docs/C20.md): the Logger output of Apply, --only
-   (Autofix.skip() = false), I/O errors while saving, int overflow of `count`,
+   (Autofix.skip() = false), int overflow of `count`,
    strings.Count on non-ASCII text with an empty pattern. *)
 From PV Require Import Lib.Bytes.
 Open Scope N_scope.
@@ -439,8 +444,12 @@ Fixpoint nodup_fname (l : list fname) : list fname :=
 Definition file_content (ls : list line) (fn : fname) : str :=
   concat (concat (map line_chunks (filter (fun l => fname_eqb (ln_file l) fn) ls))).
 
-(* Returns the new cache and disk and the list of rewritten files. *)
-Definition save_lines (md : mode) (c : cache) (disk : list (N * str)) (ls : list line)
+(* Returns the new cache and disk and the list of rewritten files.
+   fail: the keys of the files whose rewrite fails (OpenFile(O_EXCL) / WriteString /
+   Close / Chmod / Rename returns an error): the loop body is left with `continue`
+   AFTER G.fileCache.Evict(filename), the file keeps its content. *)
+Definition key_in (k : N) (l : list N) : bool := existsb (N.eqb k) l.
+Definition save_lines (md : mode) (fail : list N) (c : cache) (disk : list (N * str)) (ls : list line)
   : cache * list (N * str) * list (N * str) :=
   if negb (opt_autofix md) then
     (* fast lane: evict the file of every line that carries a modified fix *)
@@ -449,7 +458,9 @@ Definition save_lines (md : mode) (c : cache) (disk : list (N * str)) (ls : list
     let changed := nodup_fname (map ln_file (filter is_modified ls)) in
     fold_left (fun '(c, d, w) fn =>
                  let content := file_content ls fn in
-                 (evict c (key fn), map_set (key fn) content d, w ++ [(key fn, content)]))
+                 if key_in (key fn) fail
+                 then (evict c (key fn), d, w)
+                 else (evict c (key fn), map_set (key fn) content d, w ++ [(key fn, content)]))
               changed (c, disk, []).
 
 (* ---------- operations of a run and what they show ---------- *)
@@ -457,7 +468,7 @@ Definition save_lines (md : mode) (c : cache) (disk : list (N * str)) (ls : list
 Inductive op :=
 | OLoad (fn : fname) (o : N)               (* Load(fn, o) *)
 | OFix (v : nat) (i : nat) (f : fixop)     (* one fix transaction on line i of view v *)
-| OSave (v : nat)                          (* SaveAutofixChanges(view v) *)
+| OSave (v : nat) (fail : list N)          (* SaveAutofixChanges(view v); writing the files in `fail` fails *)
 | OModify (k : N) (c : option str).        (* write/remove the file, then G.fileCache.Evict *)
 
 (* lineno, Text, raw, fix attached *)
@@ -508,11 +519,11 @@ Definition step (md : mode) (s : state) (o : op) : res (state * obs) :=
                  ObsFix acted))
       end
     end
-  | OSave v =>
+  | OSave v fail =>
     match view_lines s v with
     | None => Ok (s, ObsBad)
     | Some (_, ls) =>
-      let '(c', d', w) := save_lines md (st_cache s) (st_disk s) ls in
+      let '(c', d', w) := save_lines md fail (st_cache s) (st_disk s) ls in
       Ok (mkState c' (st_heap s) (st_views s) d' (remove_nat v (st_pending s)), ObsSave w)
     end
   | OModify k c =>
